@@ -159,9 +159,18 @@ fn shim_closed_system() -> String {
 struct ChunkR<'a> {
     data: &'a [u8],
     k: usize,
+    /// (call number, 0 = Interrupted / 1 = Other): the call with that number fails once
+    fault: Option<(usize, u8)>,
+    calls: usize,
 }
 impl RRead for ChunkR<'_> {
     fn read(&mut self, buf: &mut [u8]) -> Result<usize, ruzstd::io::Error> {
+        self.calls += 1;
+        if let Some((at, kind)) = self.fault {
+            if at + 1 == self.calls {
+                return Err(ruzstd::io::Error::from(if kind == 0 { ruzstd::io::ErrorKind::Interrupted } else { ruzstd::io::ErrorKind::Other }));
+            }
+        }
         let n = buf.len().min(self.k).min(self.data.len());
         buf[..n].copy_from_slice(&self.data[..n]);
         self.data = &self.data[n..];
@@ -171,9 +180,17 @@ impl RRead for ChunkR<'_> {
 struct ChunkS<'a> {
     data: &'a [u8],
     k: usize,
+    fault: Option<(usize, u8)>,
+    calls: usize,
 }
 impl std::io::Read for ChunkS<'_> {
     fn read(&mut self, buf: &mut [u8]) -> std::io::Result<usize> {
+        self.calls += 1;
+        if let Some((at, kind)) = self.fault {
+            if at + 1 == self.calls {
+                return Err(std::io::Error::from(if kind == 0 { std::io::ErrorKind::Interrupted } else { std::io::ErrorKind::Other }));
+            }
+        }
         let n = buf.len().min(self.k).min(self.data.len());
         buf[..n].copy_from_slice(&self.data[..n]);
         self.data = &self.data[n..];
@@ -196,9 +213,15 @@ fn shim_chunked_system() -> String {
                     for prog in 0..125u32 {
                         let ops = [prog % 5, (prog / 5) % 5, (prog / 25) % 5];
                         for n_ops in 1..=3 {
+                          // transient / hard failure of one read call (read, read_exact and take(..).read only:
+                          // what read_to_end does on Interrupted is not something the library relies on)
+                          for fault in [None, Some((0usize, 0u8)), Some((1, 0)), Some((2, 0)), Some((0, 1)), Some((1, 1)), Some((2, 1))] {
+                            if fault.is_some() && (limit > 2 || ops[..n_ops].iter().any(|o| *o >= 3)) {
+                                continue;
+                            }
                             cases += 1;
-                            let mut r = ChunkR { data: &data, k };
-                            let mut s = ChunkS { data: &data, k };
+                            let mut r = ChunkR { data: &data, k, fault, calls: 0 };
+                            let mut s = ChunkS { data: &data, k, fault, calls: 0 };
                             for (step, op) in ops.iter().take(n_ops).enumerate() {
                                 let mut rb = vec![0u8; blen];
                                 let mut sb = vec![0u8; blen];
@@ -224,12 +247,13 @@ fn shim_chunked_system() -> String {
                                 };
                                 let same = x == y && (x.is_err() || (rb[..x.unwrap_or(0).min(blen)] == sb[..y.unwrap_or(0).min(blen)] && rv == sv && r.data.len() == s.data.len()));
                                 if !same && mismatches.len() < 5 {
-                                    mismatches.push(format!("source {slen} chunk {k} buffer {blen} limit {limit} ops {:?} step {step}: crate {:?} ({} collected, {} left) vs std {:?} ({} collected, {} left)", &ops[..n_ops], x, rv.len(), r.data.len(), y, sv.len(), s.data.len()));
+                                    mismatches.push(format!("source {slen} chunk {k} buffer {blen} limit {limit} fault {fault:?} ops {:?} step {step}: crate {:?} ({} collected, {} left) vs std {:?} ({} collected, {} left)", &ops[..n_ops], x, rv.len(), r.data.len(), y, sv.len(), s.data.len()));
                                 }
                                 if x.is_err() || y.is_err() {
                                     break;
                                 }
                             }
+                          }
                         }
                     }
                 }
